@@ -414,6 +414,10 @@ class List(list, base.Symbolic, pg_typing.CustomTyping):
     if isinstance(value, Insertion):
       should_insert = True
       value = value.value
+      # An inserted value always occupies a new position: if it already lives
+      # in a tree (possibly at this very index), insert a copy of it.
+      if isinstance(value, base.Symbolic) and value.sym_parent is not None:
+        value = value.clone()
 
     old_value = pg_typing.MISSING_VALUE
     # Replace an existing value.
